@@ -271,7 +271,7 @@ def _compress(ids):
 
 
 BAD_KINDS = ("overrun", "overrun-send", "sendbuf-modified", "gap-written")
-CUT_AFTER = 3       # simulations a (collective, algorithm, layout, np, count) cell may kill the same way before it is cut short
+CUT_AFTER = 3       # simulations a (collective, algorithm, layout, np class, count class) cell may kill the same way before it is cut short
 SLICE_S = 4.0       # a worker gives the rest of a crash-heavy piece back to the pool after this long
 
 
@@ -291,13 +291,14 @@ def bad_text(b):
 def run_piece(task):
     """Runs the case ids in task['ranges'] of one (collective, algorithm, layout); every time the simulation dies the
     case in progress is recorded and the run resumes after it. Gives back what is left after SLICE_S seconds."""
-    binary, d, coll, algo, layout, grid, ranges, cells, minsize = task      # cells[id] = (np, count)
+    binary, d, coll, algo, layout, grid, ranges, cells, minsize, crashes0 = task      # cells[id] = (np class, count class)
     t0 = time.time()
     tag = "%s-%s-%s-%d" % (coll, algo, layout, os.getpid())
     out = {"coll": coll, "algo": algo, "layout": layout, "runs": 0, "failures": [], "refused": [], "errcodes": [],
            "completed": 0, "rest": [], "cut": [], "minsize": minsize}
     pending = list(ranges)
-    crashes = {}     # (np, count, kind) -> simulations killed by a case of that cell
+    crashes = dict(crashes0)     # (np class, count class, kind) -> simulations killed by a case of that cell (whole shard)
+    out["crashes"] = crashes
     size0 = sum(b - a for a, b in pending)
 
     def go(rg, to):
@@ -321,13 +322,23 @@ def run_piece(task):
         nonlocal pending
         cell = cells[culprit]
         n = crashes[cell + (kind,)] = crashes.get(cell + (kind,), 0) + 1
-        if n >= (1 if kind.startswith("hang") else CUT_AFTER):
+        if n >= threshold(kind):
             # every further case of this (np, count) cell would cost one more dead simulation: the cell is a
             # recorded failure already, its remaining cases are reported as not run
             drop = [i for a, b in pending for i in range(a, b) if cells[i] == cell]
             if drop:
                 pending = _compress([i for a, b in pending for i in range(a, b) if cells[i] != cell])
                 out["cut"].append((cell[0], cell[1], kind, len(drop)))
+
+    def threshold(kind):
+        return 1 if kind.startswith("hang") else CUT_AFTER
+
+    for (c0, c1, kind), n in sorted(crashes.items()):      # cells another piece of this shard has already cut
+        if n >= threshold(kind):
+            drop = [i for a, b in pending for i in range(a, b) if cells[i] == (c0, c1)]
+            if drop:
+                pending = _compress([i for a, b in pending for i in range(a, b) if cells[i] != (c0, c1)])
+                out["cut"].append((c0, c1, kind, len(drop)))
 
     guard, slow = 0, 1
     while pending:
@@ -356,9 +367,9 @@ def run_piece(task):
                 kind, text = classify(r0)
                 out["minsize"] = 2
                 if go([(0, 0)], 30.0).complete:
-                    ones = [i for i in ids if cells[i][0] == 1]
+                    ones = [i for i in ids if cells[i][0] == "np=1"]
                     out["failures"] += [(i, kind + ":comm-creation", text) for i in ones]
-                    pending = _compress([i for i in ids if cells[i][0] != 1])
+                    pending = _compress([i for i in ids if cells[i][0] != "np=1"])
                     continue
                 out["minsize"] = 1
             if not r0.complete:   # the algorithm breaks communicator creation / finalisation with no case at all
@@ -492,9 +503,11 @@ def _run(ctx, binary, d):
     shards = [(c, a, l) for c, a in shard_list(algos) for l in LAYOUTS]
     colls = sorted(set(s[0] for s in shards))
     case_lists = dict(zip(colls, common.pmap(_list_one, [(binary, d, c, grid) for c in colls])))
-    cells = {c: [(x["np"], x["count"]) for x in cl] for c, cl in case_lists.items()}
+    # cell of a case = the granularity of the case key: (np class, count class)
+    cells = {c: [(np_class(x["np"]), count_class(x["count"], x["np"])) for x in cl] for c, cl in case_lists.items()}
     cost = lambda s: len(case_lists[s[0]]) * (25 if s[1] == "automatic" else 1)
-    order = sorted(shards, key=cost, reverse=True)
+    # largest first (makespan), the "automatic" pseudo-algorithms (they run every other algorithm in turn) last
+    order = sorted(shards, key=lambda s: (s[1] != "automatic", cost(s)), reverse=True)
     if ctx.seed:
         random.Random(ctx.seed).shuffle(order)
     end = ctx.deadline.end - (15 if ctx.quick else 90)      # keep time for the confirmations and the report
@@ -506,7 +519,8 @@ def _run(ctx, binary, d):
 
         def submit(shard, ranges, minsize=1):
             coll, algo, layout = shard
-            f = ex.submit(run_piece, (binary, d, coll, algo, layout, grid, ranges, cells[coll], minsize))
+            f = ex.submit(run_piece, (binary, d, coll, algo, layout, grid, ranges, cells[coll], minsize,
+                                      dict(acc[shard].get("crashes", {}))))
             running[f] = shard
             acc[shard]["open"] += 1
             acc[shard]["started"] = True
@@ -525,6 +539,9 @@ def _run(ctx, binary, d):
                 r = f.result()
                 acc[shard]["open"] -= 1
                 acc[shard]["pieces"].append(r)
+                cr = acc[shard].setdefault("crashes", {})
+                for k, n in r["crashes"].items():
+                    cr[k] = max(cr.get(k, 0), n)
                 if r["rest"]:
                     if time.time() > hard_end:
                         acc[shard]["abandoned"] = True
@@ -636,7 +653,7 @@ def summarize(ctx, acc, shards, case_lists, grid, algos, groups, conf):
         "exhaustive_outside_cut_cells": not_started == 0,
         "cases_not_run_because_mpi_setup_itself_fails_with_the_algorithm": blocked,
         "cells_cut_short": cut_cells, "cases_not_run_in_cut_cells": cut_cases,
-        "cut_rule": "a (collective, algorithm, layout, np, count) cell whose cases killed %d simulations the same way (1 for a hang) is a "
+        "cut_rule": "a (collective, algorithm, layout, np class, count class) cell - the granularity of the case key - whose cases killed %d simulations the same way (1 for a hang) is a "
                     "recorded failure; its remaining cases (other types/ops/roots/variants) are not run" % CUT_AFTER,
         "grid": "quick: np{1,2,3,4,5,8} roots{0,np-1} counts{0,1,np+1}" if ctx.quick else
                 "thorough: np 1..17, all roots, counts{0,1,2,np-1,np,np+1,1000}",
